@@ -521,7 +521,9 @@ func (sr *sessRun) step(st *Step) {
 			}
 			return
 		}
-		if !(m.single && m.preserve) {
+		if !(m.single && m.preserve) || stamp == nil {
+			// C09: an operation without an election id, or from a session that has not
+			// negotiated SINGLE_PRIMARY, ends the RPC - an in-band FAILED is not enough
 			e.report("C09", "violation-not-rejected", why, what+": the RPC is still open", false)
 		}
 		for _, rec := range s.sent {
